@@ -1057,8 +1057,10 @@ class Origin:
         # isize, ..)` called as `f(&mut self.best_lb, ..)`: a method turned into an associated function with partial borrows) IS that field
         # ... and a scalar parameter that receives, at every call site, the value of one and the same field which the callee never writes
         # (`enqueue_cutset(ub, self.best_lb)`: a value threaded through a parameter instead of being re-read) is that field's value
-        by_ref = (body.local_ty(l) or '').startswith('&mut ')
-        scalar = (body.local_ty(l) or '') in ('isize', 'usize', 'bool', 'i64', 'u64', 'i32', 'u32')
+        is_anchor = body.fn_name in __import__('ddoverif.inline', fromlist=['SLOTS']).SLOTS
+        by_ref = (body.local_ty(l) or '').startswith('&mut ') and is_anchor
+        # (anchors only: a non-anchor helper is inlined into its callers, where the binding of its parameters is explicit)
+        scalar = (body.local_ty(l) or '') in ('isize', 'usize', 'bool', 'i64', 'u64', 'i32', 'u32') and body.fn_name in __import__('ddoverif.inline', fromlist=['SLOTS']).SLOTS
         if l >= 1 and l <= body.arg_count and body.kind != 'closure' and body.raw.get('vis') != 'pub' and not body.impl_trait and (by_ref or scalar) \
                 and (body.local_name(l) or '') != 'self':
             memo = self.facts.__dict__.setdefault('_field_params', {})
@@ -1073,7 +1075,7 @@ class Origin:
                         if (ct.get('callee') == body.name or ct.get('resolved') == body.name) and l - 1 < len(ct['args']):
                             seen.append(cb.origin.operand(ct['args'][l - 1], cb.term_point(bb)))
                 if seen and all(x == seen[0] for x in seen) and is_field(seen[0], seen[0][2] if isinstance(seen[0], tuple) and len(seen[0]) > 2 else None) \
-                        and is_param(field_base(seen[0])):
+                        and is_param(field_base(seen[0]), index=0) and not (field_base(seen[0])[1] in self.facts.bodies and self.facts.bodies[field_base(seen[0])[1]].kind == 'closure'):
                     if by_ref or (seen[0][2], seen[0][3]) not in _fields_written_by(body):
                         memo[key] = seen[0]
             if memo[key] is not None:
